@@ -50,7 +50,7 @@ def run(ctx, F, cg):
         else:
             ctx.violation("R07a", "in-place-history-mutation|" + short, where(F.fns[owner]),
                           "%s takes last_mut() of the version chain without a copy-on-write guard (version compare=%s, push of a new version=%s): a read at an older version changes after this call" % (short, reads_ver and cmpv, pushes))
-    ctx.floor("R07a", "functions taking last_mut of a node chain", n, 4)
+    ctx.floor("R07a", "functions taking last_mut of a node chain", n, 3)
     # ---- R07b ------------------------------------------------------------------------------------------
     nb = 0
     for p, r in sorted(F.fns.items()):
